@@ -341,6 +341,13 @@ def _check_reseed(part, r, val, tname, arg_case):
             part.violation('randomize/basic-error/%s' % tname, 'RANDOMIZE %s raised error %d' % (b.hex(), e.err),
                            dict(arg_case, old=old))
             continue
+        except Exception as e:
+            from mc.core import from_pcbasic
+            if not from_pcbasic(e):
+                raise
+            part.violation('randomize/host-exception/%s/%s' % (type(e).__name__, tname), 'RANDOMIZE %s raised %r' % (b.hex(), e),
+                           dict(arg_case, old=old))
+            break
         got = r._seed
         exp = ref_randomize(old, b)
         case = dict(arg_case, old=old)
